@@ -112,7 +112,25 @@ def callbacks():
         guard()
         return scared.preprocesses.square(traces)
 
-    _CB.update({'rev_affine': pp_rev_affine, 'append_prod': pp_append_prod, 'cast': pp_cast, 'square': pp_square})
+    def linear(mul, add):
+        # two closures of one factory: distinct callables with the same __name__ / __qualname__
+        @scared.preprocess
+        def pp_linear(traces):
+            guard()
+            return traces.astype('float32') * mul + add
+        return pp_linear
+
+    class Offset(scared.Preprocess):
+        # two instances of one Preprocess subclass: distinct callables of the same class
+        def __init__(self, k):
+            self.k = k
+
+        def __call__(self, traces):
+            guard()
+            return traces.astype('float32') + self.k
+
+    _CB.update({'rev_affine': pp_rev_affine, 'append_prod': pp_append_prod, 'cast': pp_cast, 'square': pp_square,
+                'lin_a': linear(2, 0), 'lin_b': linear(1, 3), 'off_a': Offset(1), 'off_b': Offset(4)})
     return _CB
 
 
@@ -324,6 +342,11 @@ def gen_base(prop, seed, tier):
     rule = _w(r, [(r.randint(1, 6), 3), (r.randint(7, 30), 3), (r.choice([nmax, nmax + 5, max(1, nmax - 1), max(1, nmax // 2)]), 2),
                   (r.choice([1e-5, 5e-5, 1e-4, 3e-4]), 1.5),
                   (r.choice([[[0, 4], [3, 6], [10, 9]], [[0, 3], [2, 7]], [[0, 50], [4, 5], [6, 2]], [[0, 1], [100, 3]]]), 1.5)])
+    c2 = rng.stream(seed, 'chain2')
+    if c2.random() < 0.15:
+        # the same callable twice, callables sharing a name (closures of one factory, instances of one Preprocess class), chains of four
+        chain = c2.choice([['rev_affine', 'rev_affine'], ['append_prod', 'append_prod'], ['lin_a', 'lin_b'], ['lin_b', 'lin_a'], ['off_a', 'off_b'],
+                           ['lin_a', 'rev_affine', 'lin_b'], ['off_a', 'square', 'off_b'], ['cast', 'lin_b', 'append_prod', 'lin_a']])
     scn = {'prop': prop, 'engine': 'pipeline', 'seed': seed, 'kind': kind, 'mode': mode, 'm': m, 'sets': sets, 'frame': frame, 'chain': chain,
            'words': words, 'rule': rule, 'precision': r.choice(['float32', 'float64']),
            'tdtype': r.choice(['uint8', 'uint8', 'int16', 'float32', 'float64'] if thorough else ['uint8']),
